@@ -33,6 +33,8 @@ long vx_enum_index (void);
 const char *vx_obs_text (void);
 void vx_scan_now (void);                          /* scan sanitizer output produced so far into fails */
 void vx_child_exit (int code);                    /* finish this execution early (records, then _exit) */
+void vx_detach (void);                            /* (added for C01) a process forked BY a child stops recording into the child's slot:
+                                                     vx_fail prints to stderr, vx_obs/vx_count/vx_scan_now become no-ops */
 
 /* harness options: --name=value anywhere in argv (call vx_init_args first) */
 void vx_init_args (int argc, char **argv);
